@@ -825,6 +825,10 @@ func c14Exec(ops []string, o *vu.Out) {
 				timedOut = true
 			}
 		}
+		if timedOut && os.Getenv("C14_DUMP") != "" {
+			buf := make([]byte, 1<<20)
+			os.Stderr.Write(buf[:runtime.Stack(buf, true)])
+		}
 		cc.Close()
 	}
 	cconn.Close()
@@ -845,10 +849,6 @@ func c14Exec(ops []string, o *vu.Out) {
 		o.Fail("newclientconn", ccErr.Error())
 	}
 	if timedOut {
-		if os.Getenv("C14_DUMP") != "" {
-			buf := make([]byte, 1<<20)
-			os.Stderr.Write(buf[:runtime.Stack(buf, true)])
-		}
 		o.Fail("hang", fmt.Sprintf("exchange did not finish within %v", c14Watchdog))
 		o.Op("end", "timeout")
 		return
